@@ -156,7 +156,7 @@ Theorem csv_equals_npy : forall files o,
 Proof.
   intros files o Hok.
   change (R (txt_load files o) (npy_load MTime (map (option_map retype64) files) o)).
-  unfold txt_load, npy_load. destruct K_rest as [Hn [Ht [Hnh Hth]]]. rewrite Hn, Ht, Hnh, Hth.
+  unfold txt_load, npy_load. cbn [resolve_mode]. destruct K_rest as [Hn [Ht [Hnh Hth]]]. rewrite Hn, Ht, Hnh, Hth.
   unfold zlen. rewrite map_length. fold (zlen files).
   rewrite load_all_map. rewrite !load_all_step.
   destruct (py_get files 0) as [p0|e] eqn:E0; cbn [bind]; [|reflexivity].
